@@ -294,7 +294,8 @@ APPROX_KINDS = ("lrbf", "lsem", "het_exp", "het_cosh", "het_step", "het_relu")
 HET_KINDS = ("het_exp", "het_cosh", "het_step", "het_relu")
 
 
-def mk_approx(kind, rng, Dy, Dx, Dk, Da=None, wscale=0.6, kappa=None, zero_w=False, yscale=1.0):
+def mk_approx(kind, rng, Dy, Dx, Dk, Da=None, wscale=0.6, kappa=None, zero_w=False, yscale=1.0,
+              A_kappa=None):
     """approximate conditionals. returns (obj, Truth)."""
     L = lib()
     A_ = L.approx
@@ -350,7 +351,13 @@ def mk_approx(kind, rng, Dy, Dx, Dk, Da=None, wscale=0.6, kappa=None, zero_w=Fal
     Da = Da or Dy
     # A with bounded singular values so that AA' stays inside the domain guard
     # yscale: the unit in which y is measured (A, M, b scale with it; the noise weights W do not)
-    A = gen.lin_map(rng, 1, Dy, Da, smin=0.5, smax=2.0) * yscale
+    if A_kappa is None:
+        A = gen.lin_map(rng, 1, Dy, Da, smin=0.5, smax=2.0) * yscale
+    else:
+        # homoscedastic covariance AA' with a prescribed condition number (nearly collinear rows)
+        k = min(Dy, Da)
+        sv = np.exp(np.linspace(0.0, 0.5 * np.log(A_kappa), k)) / A_kappa ** 0.25
+        A = ((gen.orth(rng, Dy)[:, :k] * sv) @ gen.orth(rng, Da)[:, :k].T)[None] * yscale
     M = gen.lin_map(rng, 1, Dy, Dx) * yscale
     b = gen.vec(rng, 1, Dy) * yscale
     W = gen.vec(rng, Dk, Dx + 1, scale=wscale)
